@@ -20,7 +20,10 @@ Reason(s, uses) ==
   LET du == CanonUse(s, uses[CHOOSE i \in DOMAIN uses : uses[i].n = "deprecated"])
   IN IF "reason" \in DOMAIN du.args THEN du.args["reason"] ELSE NullV
 
-ArgsView(s, args) == [n \in NameSet(args) |-> LET a == ByName(args, n) IN [desc |-> a.desc, type |-> TypeView(s, a.type)]]
+\* defaultValue is a String in the introspection schema: the default as a schema would write it (a string default as it is).
+\* The view holds the VALUE that text denotes (the harness reads the text back), null where there is no default.
+ArgsView(s, args) == [n \in NameSet(args) |-> LET a == ByName(args, n) IN
+                        [desc |-> a.desc, type |-> TypeView(s, a.type), def |-> IF a.hasDef THEN a.def ELSE NullV]]
 
 Visible(incDep, uses) == incDep \/ ~Deprecated(uses)
 
